@@ -57,8 +57,13 @@ Inductive dop :=
    backing slices but every reader — Entries(), the validator, the storage writer — skips them *)
 | WriteMasked (id : N) (f : frame) (keep : bool) (ks : list N)
 | CommitW (id : N)
-| CloseW (id : N).
-Inductive dres := DOk | DEmptyKeys | DMissing | DInvalidKey | DNoWriter | DAck.
+| CloseW (id : N)
+(* a writer is opened through gw while gw cannot reach node p (transport fault on gw's writer
+   client): when one of the keys is leased to p the open fails and leaves nothing behind — the peers
+   dialed before p are closed again (openManyPeers / closePeerClients); when no stream to p is needed
+   the fault goes unnoticed and the writer opens *)
+| OpenCut (id gw p : N) (keys : list N) (auto : bool).
+Inductive dres := DOk | DEmptyKeys | DMissing | DInvalidKey | DNoWriter | DAck | DUnreachable.
 Global Instance dres_eq_dec : EqDecision dres.
 Proof. solve_decision. Defined.
 
@@ -94,8 +99,15 @@ Definition mask_frame (keep : bool) (ks : list N) (f : frame) : frame :=
   filter (fun e => Bool.eqb keep (memb e.1 ks) = true) f.
 (* a masked write is the write of its visible entries: SplitByHost / SplitByLeaseholder iterate
    Entries(), the validator skips masked positions *)
+(* does opening [keys] through gw need a stream to node p *)
+Definition cut_hits (gw p : N) (keys : list N) : bool :=
+  negb (p =? gw) && existsb (fun k => (lease_of k =? p) && negb (is_free_key k)) keys.
 Definition eff_op (o : dop) : dop :=
-  match o with WriteMasked id f keep ks => WriteW id (mask_frame keep ks f) | _ => o end.
+  match o with
+  | WriteMasked id f keep ks => WriteW id (mask_frame keep ks f)
+  | OpenCut id gw p keys auto => if cut_hits gw p keys then o else OpenW id gw keys auto
+  | _ => o
+  end.
 
 Definition dstep0 (c : cluster) (o : dop) : cluster * dres :=
   match o with
@@ -133,6 +145,11 @@ Definition dstep0 (c : cluster) (o : dop) : cluster * dres :=
       | Some _ => (Cluster (cl_chans c) (cl_store c) (delete id (cl_writers c)), DOk)
       end
   | WriteMasked _ _ _ _ => (c, DNoWriter)    (* not reached: see eff_op *)
+  | OpenCut _ _ _ keys _ =>                  (* reached only when the cut is hit: see eff_op *)
+      match keys with
+      | [] => (c, DEmptyKeys)
+      | _ => if forallb (fun k => memb k (cl_chans c)) keys then (c, DUnreachable) else (c, DMissing)
+      end
   end.
 Definition dstep (c : cluster) (o : dop) : cluster * dres := dstep0 c (eff_op o).
 
@@ -179,6 +196,12 @@ Definition sstep0 (s : single) (o : dop) : single * dres :=
       | Some _ => (Single (sg_chans s) (sg_store s) (delete id (sg_writers s)), DOk)
       end
   | WriteMasked _ _ _ _ => (s, DNoWriter)
+  (* the specification of a request that cannot be served: refused, as if it had not been made *)
+  | OpenCut _ _ _ keys _ =>
+      match keys with
+      | [] => (s, DEmptyKeys)
+      | _ => if forallb (fun k => memb k (sg_chans s)) keys then (s, DUnreachable) else (s, DMissing)
+      end
   end.
 (* the single store sees the same masked frame: cesium's writer skips the masked entries *)
 Definition sstep (s : single) (o : dop) : single * dres := sstep0 s (eff_op o).
